@@ -166,7 +166,11 @@ def run(tier):
     progs = rnd.sample(progs, 2500 if tier == "quick" else len(progs))
     sim = [e["toks"] for e in c01.derive(ctx, "CGram simulated", 12, simulate=300 if tier == "quick" else 6000,
                                          depth=400, seed=ctx.seed + 19)]
-    jobs = [(t, rnd.randrange(1 << 30), injectable(t)) for t in progs + sim]
+    # every triple of productions of the declaration sub-language (parameter declarations, type names, members)
+    p3d = [e["toks"] for e in c01.derive(ctx, "CGram fuel<=3 from the roots param / typename / struct", 3,
+                                         roots=["param", "typename", "struct"])]
+    p3d = rnd.sample(p3d, 4000 if tier == "quick" else 40000)
+    jobs = [(t, rnd.randrange(1 << 30), injectable(t)) for t in progs + sim + p3d]
     ctoks = []
     for name, txt in corpus.preprocessed(30000 if tier == "quick" else None):
         tk, ast, exc = matcher.parse_with_tokens(txt, name)
